@@ -229,7 +229,7 @@ def enum_evencolor(tier):
         if any(d % 2 for d in deg) and i % 7:
             continue        # keep only a seventh of the rejected graphs
         c = dict(g)
-        c['as'] = 'networkx' if i % 3 == 0 else 'cnfgen'
+        c['as'] = ('networkx', 'cnfgen', 'cnfgen-grown', 'cnfgen', 'networkx-rev')[i % 5]
         yield {'graph': c, 'cls': 'OPB' if i % 2 else 'CNF'}
 
 
@@ -342,7 +342,7 @@ def enum_tiling(tier):
     nmax = 5 if tier == 'quick' else 6
     for i, g in enumerate(gg.all_simple_graphs(nmax)):
         c = dict(g)
-        c['as'] = 'networkx' if i % 3 == 0 else 'cnfgen'
+        c['as'] = ('networkx', 'cnfgen', 'cnfgen-grown', 'cnfgen', 'networkx-rev')[i % 5]
         yield {'graph': c, 'cls': 'OPB' if i % 2 else 'CNF'}
 
 
@@ -461,7 +461,7 @@ def run_auto(case):
 def enum_auto(tier):
     for i, g in enumerate(gg.all_simple_graphs(4)):
         c = dict(g)
-        c['as'] = 'networkx' if i % 3 == 0 else 'cnfgen'
+        c['as'] = ('networkx', 'cnfgen', 'cnfgen-grown', 'cnfgen', 'networkx-rev')[i % 5]
         yield {'graph': c, 'cls': 'OPB' if i % 2 else 'CNF'}
 
 
